@@ -381,6 +381,13 @@ func (br *BoundsRules) checkIndex(fc *FuncCtx, b *ssa.BasicBlock, in ssa.Instruc
 			}
 		}
 	}
+	// (e) the index slices.Index / slices.IndexFunc found in this very slice, on a path where it is not -1
+	if ic, ok := idx.(*ssa.Call); ok && len(ic.Call.Args) == 2 && fc.AP(ic.Call.Args[0]) == ap {
+		if found, ok := fc.foundByIndex(ic); ok && fc.Implied(b, found) {
+			br.R.OK(rule, cons, p.InstrPos(in), "index returned by slices.Index* over the same slice, under index >= 0")
+			return
+		}
+	}
 	// (d) variable index guarded by idx < len(X)
 	B := br.A.B
 	name := "lt(" + fc.AP(idx) + ",len(" + ap + "))"
